@@ -126,9 +126,20 @@ def fixed_ir():
     }
 
 
+def _canon(v):
+    """text of a value without memory addresses: AST nodes (also nested in dicts/lists) are dumped"""
+    if isinstance(v, ast.AST):
+        return "AST:" + ast.dump(v)
+    if isinstance(v, dict):
+        return "{" + ", ".join("%s: %s" % (_canon(k), _canon(x)) for k, x in v.items()) + "}"
+    if isinstance(v, (list, tuple)):
+        return "[" + ", ".join(_canon(x) for x in v) + "]"
+    return repr(v)
+
+
 def ir_text(ir):
     def e(p):
-        return [[k, repr(v) if not isinstance(v, ast.AST) else ast.dump(v)] for k, v in p.items() if k != "_internal"]
+        return [[k, _canon(v)] for k, v in p.items() if k != "_internal"]
 
     return json.dumps(
         [ir.get("name"), ir.get("doc"), [[n, e(p)] for n, p in (ir.get("params") or {}).items()], None if not ir.get("returns") else e(ir["returns"]["return_type"])]
@@ -172,6 +183,70 @@ def op_fn_google_subset(d):
     import cdd.function.parse
 
     return ir_text(cdd.function.parse.function(ast.parse(FN_GOOGLE_SUBSET).body[0]))
+
+
+FN_UNSEEN = [
+    # names the docstring documents and the parser does not find among args/kwonlyargs; each function is parsed on its own
+    '''def f(first, second, third, /, fourth):
+    """
+    Summary.
+
+    :param third: the third
+    :param first: the first
+    :param fourth: the fourth
+    :param second: the second
+    """
+    return first
+''',
+    '''def f(first, second, /, *rest: int, fifth=5):
+    """
+    Summary.
+
+    :param rest: the rest
+    :param second: the second
+    :param fifth: the fifth
+    :param first: the first
+    """
+    return first
+''',
+    '''def f(x):
+    """
+    Summary.
+
+    :param zeta: not in the signature
+    :param x: the x
+    :param omega: not in the signature
+    :param alpha: not in the signature
+    :param kappa: not in the signature
+    :param beta: not in the signature
+    """
+    return x
+''',
+    '''def f(a, b, /, c, *args, **kwargs):
+    """Summary.
+
+    Args:
+      b (int): the b
+      args: the args
+      a (int): the a
+      kwargs: the kwargs
+      c (int): the c
+    """
+    return a
+''',
+]
+
+
+def op_fn_posonly_and_stray(d):
+    import cdd.function.parse
+
+    out = []
+    for src in FN_UNSEEN:
+        try:
+            out.append(ir_text(cdd.function.parse.function(ast.parse(src).body[0])))
+        except Exception as e:
+            out.append("EXC:" + type(e).__name__)
+    return "\n".join(out)
 
 
 def op_class_merge(d):
@@ -346,9 +421,12 @@ def op_parse_json_schema_and_sqlalchemy(d):
     import cdd.sqlalchemy.parse
     from mc import formats as F
 
-    sch = cdd.json_schema.emit.json_schema(deepcopy(fixed_ir()), "https://example.com/cfg.json")
+    ir = fixed_ir()
+    del ir["params"]["names"]  # Optional[List[str]] has no JSON-schema type: the parser raises on what the emitter writes for it
+    ir["returns"] = None
+    sch = cdd.json_schema.emit.json_schema(deepcopy(ir), "https://example.com/cfg.json")
     a = cdd.json_schema.parse.json_schema(json.loads(json.dumps(sch)))
-    text = F.render(F.emit_ast("sqlalchemy", deepcopy(fixed_ir()), "rest", True))
+    text = F.render(F.emit_ast("sqlalchemy", deepcopy(ir), "rest", True))
     b = cdd.sqlalchemy.parse.sqlalchemy(ast.parse(text).body[0])
     return ir_text(a) + "\n" + ir_text(b)
 
@@ -406,6 +484,7 @@ OPS = OrderedDict(
         ("fn_subset", op_fn_subset),
         ("fn_perm", op_fn_perm),
         ("fn_google_subset", op_fn_google_subset),
+        ("fn_posonly_and_stray", op_fn_posonly_and_stray),
         ("class_merge", op_class_merge),
         ("emit_docstring", op_emit_docstring),
         ("emit_class", op_emit_class),
